@@ -103,6 +103,7 @@ fn main() {
                 "C13" | "C13v" => c13::gen(prop, seed, n, &mut out),
                 "C20" => c20::gen(seed, n, &mut out),
                 "C03" => c03::gen(seed, n, &mut out),
+                "C17m" => c03::gen_serde(seed, n, &mut out),
                 "C04" => c04::gen(seed, n, &mut out),
                 "C05csr" => c05::gen_csr(seed, n, &mut out),
                 "C05list" => c05::gen_list(seed, n, &mut out),
@@ -117,7 +118,7 @@ fn main() {
                 "C17g" | "C17s" => for (id, h, ops) in parse_generic(&text) { c17::run_case(prop, id, &h, &ops, &mut out) },
                 "C02" => for (id, h, ops) in parse_generic(&text) { c02::run_case(id, &h, &ops, &mut out) },
                 "C14" => for (id, h, ops) in parse_generic(&text) { c14::run_case(id, &h, &ops, &mut out) },
-                "C03" => for (id, h, ops) in parse_generic(&text) { c03::run_case(id, &h, &ops, &mut out) },
+                "C03" | "C17m" => for (id, h, ops) in parse_generic(&text) { c03::run_case(id, &h, &ops, &mut out) },
                 "C04" => for (id, h, ops) in parse_generic(&text) { c04::run_case(id, &h, &ops, &mut out) },
                 "C05csr" => for (id, h, ops) in parse_generic(&text) { c05::run_csr_case(id, &h, &ops, &mut out) },
                 "C05list" => for (id, h, ops) in parse_generic(&text) { c05::run_list_case(id, &h, &ops, &mut out) },
